@@ -32,13 +32,16 @@ Put(L, a, r) == [x \in DOMAIN L \cup {a} |-> IF x = a THEN r ELSE L[x]]
 Move(L, a, b, amt) == LET L1 == Put(L, a, [Get(L, a) EXCEPT !.bal = Monus(@, amt)])
                       IN Put(L1, b, [Get(L1, b) EXCEPT !.bal = Plus(@, amt)])
 
-NoShadow == [ran |-> FALSE, ok |-> FALSE, writes |-> {}, keep |-> {}, moved |-> Zero]
+NoShadow == [ran |-> FALSE, ok |-> FALSE, writes |-> {}, keep |-> {}, moved |-> Zero, req |-> <<>>, dest |-> ""]
 
 (* tx  = [kind: "deploy"|"call"|"terminate", wasm: BOOLEAN, from, to: names (to = contract address), *)
 (*        amount, maxFee, tips, sizeFee, fpg: amounts]                                            *)
-(* rc  = [success: BOOLEAN, gasUsed: Int, gasCost: amount]                                        *)
+(* rc  = [success: BOOLEAN, gasUsed: Int, gasCost: amount, oog: BOOLEAN (failed for lack of gas)]  *)
 (* eff = [req: name -> requested balance (root buffer), burnt, term: amounts, deployed: names,    *)
-(*        sh: shadow record (NoShadow when the probe does not apply, i.e. wasm)]                  *)
+(*        sh: shadow record (NoShadow when the probe does not apply, i.e. wasm): what the code of *)
+(*        an embedded contract asks for when run to completion on the pre-state: ok, store writes *)
+(*        of the called contract, kept keys and stake destination of a termination, amount moved  *)
+(*        to the stake, requested balances]                                                       *)
 
 Escrowed(t) == t.amount # Zero /\ (t.kind = "call" \/ t.wasm)             \* shouldAddPayAmount
 StakeDeploy(t) == t.amount # Zero /\ t.kind = "deploy" /\ ~t.wasm          \* pay amount becomes the stake
@@ -90,16 +93,30 @@ Explained(pre, post, t, r, e, p) ==
     LET pred == ChargeOp(Settled(pre, t, r, e), t, Charged(pre, post, t, r, e)) IN
     \A a \in (DOMAIN pred \cup DOMAIN post) \ {p} : SameAcct(Get(post, a), Get(pred, a), StoreDetermined(t, r, e))
 
+(* the balance buffer the node applied is the one the contract code asked for (both are absolute *)
+(* values on top of the escrowed pre-state); the stake refund of a termination is the node's own *)
+ReqAgree(pre, t, r, e) ==
+    (r.success /\ e.sh.ran /\ e.sh.ok) =>
+        LET base == EscrowOp(pre, t)
+            val(f, a) == IF a \in DOMAIN f THEN f[a] ELSE Get(base, a).bal
+        IN \A a \in (DOMAIN e.req \cup DOMAIN e.sh.req) \ (IF t.kind = "terminate" THEN {e.sh.dest} ELSE {}) :
+              val(e.req, a) = val(e.sh.req, a)
+
 (* a failed run leaves no trace except the sender's nonce, the fee and the tips *)
 FailLeavesNoTrace(pre, post, t, r, e, p) == ~r.success => Explained(pre, post, t, r, e, p)
 (* a successful run applies everything it asked for, and nothing else *)
-SuccessAppliesAll(pre, post, t, r, e, p) == r.success => Explained(pre, post, t, r, e, p)
+SuccessAppliesAll(pre, post, t, r, e, p) == r.success => (Explained(pre, post, t, r, e, p) /\ ReqAgree(pre, t, r, e))
 (* the node records success only if the contract code finished without error *)
 ReceiptTruthful(t, r, e) == (e.sh.ran /\ r.success) => e.sh.ok
+(* ... and fails a run that the contract code completes on the pre-state only for lack of gas:    *)
+(* anything else means that the run did not see the pre-state (an earlier failed transaction of   *)
+(* the block left something behind) or that the environment made the contract fail                *)
+OutcomeAgrees(t, r, e) == (e.sh.ran /\ e.sh.ok /\ ~r.success) => r.oog
 
 FeeWithinMax(pre, post, t, r, e) == LET c == Charged(pre, post, t, r, e) IN IsNat(c) /\ Leq(c, t.maxFee)
 GasWithinBought(t, r) == Leq(Add(t.sizeFee, GasCostOf(t, r)), t.maxFee)
-PaysForItself(pre, post, t, r, e) == LET c == Charged(pre, post, t, r, e) IN IsNat(c) /\ Leq(GasCostOf(t, r), c)
+(* the charge covers the size fee and the gas the run used *)
+PaysForItself(pre, post, t, r, e) == LET c == Charged(pre, post, t, r, e) IN IsNat(c) /\ Leq(Add(t.sizeFee, GasCostOf(t, r)), c)
 
 NoOverspend(post, e) ==
     /\ \A a \in DOMAIN post : IsNat(post[a].bal) /\ IsNat(post[a].cstake) /\ IsNat(post[a].stake)
@@ -122,6 +139,7 @@ Conserved(pre, post, t, r, e, p) ==
 Broken(pre, post, t, r, e, p) ==
     IF ~NoOverspend(post, e) THEN "NoOverspend"
     ELSE IF ~ReceiptTruthful(t, r, e) THEN "ReceiptTruthful"
+    ELSE IF ~OutcomeAgrees(t, r, e) THEN "OutcomeAgrees"
     ELSE IF ~FailLeavesNoTrace(pre, post, t, r, e, p) THEN "FailLeavesNoTrace"
     ELSE IF ~SuccessAppliesAll(pre, post, t, r, e, p) THEN "SuccessAppliesAll"
     ELSE IF ~GasWithinBought(t, r) THEN "GasWithinBought"
@@ -171,7 +189,7 @@ InitLedgers ==
      : tb \in {0, 2}, tc \in BOOLEAN, ts \in BOOLEAN, oc \in BOOLEAN}
 
 Init == /\ led \in InitLedgers /\ pre0 = led /\ pc = "idle"
-        /\ tx = [kind |-> "none"] /\ rc = [success |-> FALSE, gasUsed |-> 0, gasCost |-> Zero]
+        /\ tx = [kind |-> "none"] /\ rc = [success |-> FALSE, gasUsed |-> 0, gasCost |-> Zero, oog |-> FALSE]
         /\ frames = <<>> /\ gas = 0 /\ steps = 0 /\ shok = TRUE /\ acts = {}
         /\ eff = [req |-> <<>>, burnt |-> Zero, term |-> Zero, deployed |-> {}, sh |-> NoShadow]
 
@@ -215,7 +233,7 @@ Spend(k) == /\ gas' = gas + 1 /\ steps' = steps + 1 /\ acts' = acts \cup {k}
             /\ UNCHANGED <<led, pre0, pc, tx, rc, eff, shok>>
 
 OutOfGas == /\ pc = "run" /\ steps < MaxSteps /\ ~Fits
-            /\ rc' = [success |-> FALSE, gasUsed |-> tx.gl, gasCost |-> Mul(N(tx.gl), Fpg)]
+            /\ rc' = [success |-> FALSE, gasUsed |-> tx.gl, gasCost |-> Mul(N(tx.gl), Fpg), oog |-> TRUE]
             /\ pc' = "settle" /\ acts' = acts \cup {"outofgas"}
             /\ UNCHANGED <<led, pre0, tx, frames, gas, steps, eff, shok>>
 
@@ -280,11 +298,11 @@ Finish(ok, dest) ==
        IN /\ (~term => dest = Rcpt)
           /\ eff' = [req |-> f.req, burnt |-> f.burnt, term |-> IF term THEN Sub(st, Half(st)) ELSE Zero, deployed |-> f.dep,
                      sh |-> IF tx.wasm THEN NoShadow
-                            ELSE [ran |-> TRUE, ok |-> ok, moved |-> f.moved, keep |-> {},
+                            ELSE [ran |-> TRUE, ok |-> ok, moved |-> f.moved, keep |-> {}, req |-> f0.req, dest |-> dest,
                                   writes |-> {<<x[2], f.wr[x]>> : x \in {y \in DOMAIN f.wr : y[1] = Target}}]]
           /\ frames' = <<f>>
     /\ shok' = ok
-    /\ rc' = [success |-> ok, gasUsed |-> gas, gasCost |-> Mul(N(gas), Fpg)]
+    /\ rc' = [success |-> ok, gasUsed |-> gas, gasCost |-> Mul(N(gas), Fpg), oog |-> FALSE]
     /\ pc' = "settle"
     /\ UNCHANGED <<led, pre0, tx, gas, steps, acts>>
 
